@@ -118,11 +118,11 @@ func (t *T) Note(format string, a ...interface{}) {
 	}
 }
 
-func (t *T) Fault(kind string)  { t.Out.Faults[kind]++ }
-func (t *T) Probe(name string)  { t.Out.Probes[name]++ }
+func (t *T) Fault(kind string)           { t.Out.Faults[kind]++ }
+func (t *T) Probe(name string)           { t.Out.Probes[name]++ }
 func (t *T) ProbeN(name string, n int64) { t.Out.Probes[name] += n }
-func (t *T) State(sig string)   { t.State64(HashString(sig)) }
-func (t *T) State64(sig uint64) { t.Out.States[sig&^SpaceMask] = struct{}{} }
+func (t *T) State(sig string)            { t.State64(HashString(sig)) }
+func (t *T) State64(sig uint64)          { t.Out.States[sig&^SpaceMask] = struct{}{} }
 
 // SpaceMask: the top three bits of a state signature name a sub-space (0-7) so
 // that coverage of small finite spaces can be reported separately.
@@ -132,7 +132,7 @@ const SpaceMask = uint64(7) << 61
 func (t *T) StateIn(space int, sig uint64) {
 	t.Out.States[(sig&^SpaceMask)|uint64(space&7)<<61] = struct{}{}
 }
-func (t *T) Op()                { t.Out.Ops++ }
+func (t *T) Op() { t.Out.Ops++ }
 
 // Violate records a failed oracle. It does not stop the run; callers return
 // when going on would be meaningless.
@@ -172,13 +172,13 @@ func (t *T) Failed() bool { return len(t.Out.Violations) > 0 }
 
 // PanicInfo describes a recovered panic.
 type PanicInfo struct {
-	Value    string
-	TopFunc  string // innermost non-runtime frame
-	TopFile  string
-	OrbFunc  string // innermost frame inside github.com/paulmach/orb (not verifrt)
-	OrbFile  string
-	Stack    string
-	Funcs    []string // innermost first, runtime frames removed
+	Value   string
+	TopFunc string // innermost non-runtime frame
+	TopFile string
+	OrbFunc string // innermost frame inside github.com/paulmach/orb (not verifrt)
+	OrbFile string
+	Stack   string
+	Funcs   []string // innermost first, runtime frames removed
 }
 
 // ClassDetail names where a panic belongs: the innermost frame when it is orb
